@@ -601,7 +601,7 @@ theorem parseEvents_sound (es : List Ev) (ps ps' : PState) (hf : parseEvents ps 
         · exact Or.inl h
         · exact Or.inr ⟨e, by simp, h⟩
     | proto => rw [herr] at hf; exact lift ps hf (fun p hp => Or.inl hp)
-    | tooLarge => rw [herr] at hf; exact lift ps hf (fun p hp => Or.inl hp)
+    | tooLarge => rw [herr] at hf; cases hf
 
 /-! ### concrete writers satisfy `States` -/
 
